@@ -176,6 +176,16 @@ reg("C19", "fault_enumeration",
     "enumeration over k and exception types is complete for each generated operation, the operations themselves are sampled.",
     BASE_NOTE + "User callbacks are harness-owned wrappers; Union alternatives that raise count as rejecting.", "DESIGN.md 3/C19")
 
+reg("C18", "exploration",
+    "generated API programs (re-used case streams of 17 other checks, re-entrant callback programs, hostile value/name protocol faults with every k-th call enumerated) executed against an ASan+UBSan build of ctraits.c, plus an exact reference-count neutrality oracle on the plain build",
+    "Sanitised stages: the oracle is 'no sanitizer report, no crash, no SystemError, no stale error indicator' (checked with "
+    "PyErr_Occurred after every operation); half of the shards run with gc.set_threshold(1,1,1). refcount stage: for 37 "
+    "operations (succeeding and raising, through every validator family, compounds, delegation, properties, handlers, "
+    "add/remove_trait, CTrait pickling) sys.getrefcount of fresh tracked objects must be unchanged after 10 and 30 repetitions. "
+    "Thorough adds a native libFuzzer (atheris) campaign on the validators. Sanitizers see only the paths reached; MSan is "
+    "not available.",
+    BASE_NOTE + "gcc 12 ASan/UBSan runtime; PYTHONMALLOC=malloc so that CPython's allocator does not hide frees.", "DESIGN.md 3/C18")
+
 
 def main():
     props = [json.loads(l) for l in open(os.path.join(ROOT, "properties.jsonl"))]
